@@ -206,8 +206,13 @@ def gen(tier, rng):
     allbases = list(range(2, 37))
     fullbases = [2, 3, 8, 10, 16, 36]
 
-    def fmt_cases(ty, v, b, all_lens):
+    def fmt_cases(ty, v, b, all_lens, lean=False):
         n = len(text(v, b))
+        if lean:      # quick tier, 64-bit types: the extracted model needs ~0.2 ms per case there
+            out.append(f"to_chars {ty} {b} {max(0, n - 1)} {v}")
+            out.append(f"to_chars {ty} {b} {n} {v}")
+            out.append(f"to_chars_buf {ty} {b} {rng.choice([0, max(0, n - 1), n + 2])} {v}")
+            return
         lens = range(0, n + 3) if all_lens else sorted({0, max(0, n - 1), n, n + 1})
         for ln in lens:
             out.append(f"to_chars {ty} {b} {ln} {v}")
@@ -238,23 +243,45 @@ def gen(tier, rng):
                     continue
                 fmt_cases(ty, v, b, b in (2, 10, 36) and (v % 5 == 0))
                 out.append(f"roundtrip {ty} {b} {v}")
-    # ---- 32/64-bit
+    # ---- 32/64-bit: powers of each base +-1 and limits/base +-1 in that base (and base 10), random values
     for ty in ("i", "u", "l", "ul", "ll", "ull"):
-        vals = boundary_values(ty, allbases, rng, 150 if quick else 5000)
-        for v in vals:
-            bs = fullbases + [rng.choice(allbases) for _ in range(1 if quick else 6)]
-            if quick and ty in ("l", "ul"):
-                bs = [10, rng.choice(allbases)]
-            for b in sorted(set(bs)):
-                fmt_cases(ty, v, b, rng.random() < (.1 if quick else .3))
-                out.append(f"roundtrip {ty} {b} {v}")
+        lo, hi = lim(ty)
+        pairs = set()
+        for b in allbases:
+            vs = set()
+            p = 1
+            while p <= hi * b:
+                for d in (-1, 0, 1):
+                    vs.add(p + d)
+                    vs.add(-(p + d))
+                p *= b
+            for q in (lo // b, hi // b, -(-lo // b)):
+                for d in (-1, 0, 1):
+                    vs.add(q + d)
+            for v in vs:
+                if lo <= v <= hi:
+                    pairs.add((v, b))
+                    if not quick or b in fullbases:
+                        pairs.add((v, 10))
+        for _ in range(150 if quick else 20000):
+            k = rng.randint(1, TYPES[ty][0])
+            for v in (rng.randint(-(1 << k), 1 << k), rng.randint(lo, hi)):
+                if lo <= v <= hi:
+                    for b in (10, 16, rng.choice(allbases)):
+                        pairs.add((v, b))
+        for (v, b) in sorted(pairs):
+            wide = TYPES[ty][0] == 64
+            if quick and wide and rng.random() < (.8 if ty in ("l", "ul") else .4):
+                continue
+            fmt_cases(ty, v, b, rng.random() < (.1 if quick else .3), lean=quick and wide and rng.random() < .8)
+            out.append(f"roundtrip {ty} {b} {v}")
     # limits of every type in every base, every buffer length
     for ty in TYPES:
         lo, hi = lim(ty)
         for b in allbases:
             for v in (lo, lo + 1, -1, 0, 1, hi - 1, hi):
                 if lo <= v <= hi:
-                    fmt_cases(ty, v, b, True)
+                    fmt_cases(ty, v, b, not (quick and TYPES[ty][0] == 64 and b not in (2, 10, 36)))
                     out.append(f"roundtrip {ty} {b} {v}")
     # ---- from_integer (etl API, with and without terminator)
     for ty in ("sc", "uc", "s", "i", "u", "ll", "ull"):
